@@ -645,10 +645,19 @@ func mockRound(t *rapid.T, ponderOn bool) (evs []Ev, ends bool) {
 			evs = append(evs, Ev{K: "send", Arg: "stop"})
 		}
 	}
+	told := false // has the GUI told the engine to come to an end?
 	for _, e := range evs {
 		if e.K == "race" && e.Arg == "quit" {
 			ends = true
 		}
+		if e.K == "eof" || ((e.K == "send" || e.K == "race") && (e.Arg == "stop" || e.Arg == "quit")) {
+			told = true
+		}
+	}
+	// `go infinite`, and `go ponder` before its ponderhit, may by the protocol keep their bestmove back until
+	// the GUI says stop: a conforming script does not wait for a bestmove it has not asked for
+	if (strings.Contains(args, "infinite") || pondering) && !told {
+		evs = append(evs, Ev{K: "send", Arg: "stop"})
 	}
 	evs = append(evs, Ev{K: "waitbest"})
 	if !ends && gen.Chance(t, 1, 3, "after") {
@@ -722,7 +731,7 @@ func sweep(rec *evid.Rec) bool {
 				if ix%n != shard {
 					continue
 				}
-				goArgs := "infinite"
+				goArgs := "depth 30" // (not `infinite`: its bestmove may be held back until stop, and the search here ends by itself)
 				evs := []Ev{{K: "send", Arg: "isready"}}
 				if cmd == "ponderhit" {
 					evs = append(evs, Ev{K: "send", Arg: "setoption name Ponder value true"})
@@ -746,8 +755,12 @@ func sweep(rec *evid.Rec) bool {
 					} else {
 						evs = append(evs, Ev{K: "waitstart"}, Ev{K: "race", Arg: cmd, N: phase - 3})
 					}
-				default: // after bestmove
-					evs = append(evs, Ev{K: "waitstart"}, Ev{K: "finish"}, Ev{K: "waitbest"}, c)
+				default: // after bestmove (a ponder search may keep its bestmove back until the ponderhit: not awaited before)
+					if cmd == "ponderhit" {
+						evs = append(evs, Ev{K: "waitstart"}, Ev{K: "finish"}, Ev{K: "sleep", N: 2000}, c)
+					} else {
+						evs = append(evs, Ev{K: "waitstart"}, Ev{K: "finish"}, Ev{K: "waitbest"}, c)
+					}
 				}
 				evs = append(evs, Ev{K: "waitbest"})
 				if cmd != "quit" && cmd != "eof" {
